@@ -66,8 +66,7 @@ class WatchedOptions(dict):
 
 def counter_invariant(sink, limit, allow_skip=True):
     """Monotone-counter monitor over the whole run (parent and watched copies together).
-    Returns None if fine else a description. Values start at 0 and never decrease; a repeated value is
-    allowed only as a carry-back (written to a different dict than the previous write); never exceeds
+    Returns None if fine else a description. Values start at 0 and never decrease (a repeated value is a carry-back of an unchanged count); never exceeds
     limit+1 when limit>0. Skips are tolerated by default: the data helpers evaluate under a plain
     dict(options) copy the monitor cannot see, so a correct carry-back of that copy's count is a jump."""
     prev = None
@@ -79,8 +78,9 @@ def counter_invariant(sink, limit, allow_skip=True):
         else:
             if v < prev:
                 return f'counter went backwards {prev}->{v} at write {n} (dict {prev_id}->{ident})'
-            if v == prev and ident == prev_id:
-                return f'counter repeated {v} on the same dict at write {n}'
+            # (a repeated value on the same dict is legitimate: a data function called with a variables object carries its copy's
+            #  count back even when no callback ran - e.g. over an empty table; a statement that starts without being counted
+            #  shows in the comparison of the final count with the reference clock instead)
             if v > prev + 1 and not allow_skip:
                 return f'counter skipped {prev}->{v} at write {n}'
         if limit and limit > 0 and v > limit + 1:
